@@ -281,7 +281,8 @@ def histories(draw):
 def check_real(case):
   """case = {'tests': [[phase spec...], ...], 'consecutive': n, 'late': bool}; phase spec = [n_logs, via]"""
   r = CaseResult()
-  htf = ohtf.reset_case()
+  # the station's identity as configured (by default the host name, which may well be a fully qualified one)
+  htf = ohtf.reset_case(**({'station_id': case['station_id']} if case.get('station_id') else {}))
   base_logger = logging.getLogger('openhtf')
   base_logger.setLevel(logging.DEBUG)
   baseline = [type(h) for h in base_logger.handlers]
@@ -362,7 +363,8 @@ def check_real(case):
 def real_cases(draw):
   nt = draw(st.integers(1, 2))
   tests = [[[draw(st.integers(1, 4)), draw(st.sampled_from(['test', 'plug', 'uid']))] for _ in range(draw(st.integers(1, 3)))] for _ in range(nt)]
-  return {'tests': tests, 'consecutive': draw(st.integers(1, 3)), 'late': draw(st.booleans())}
+  return {'tests': tests, 'consecutive': draw(st.integers(1, 3)), 'late': draw(st.booleans()),
+          'station_id': draw(st.sampled_from([None, None, 'bench7', 'bench7.lab.example.com', 'st:7', 'a.b']))}
 
 
 # ------------------------------------------------------------------ (C) runs starting/logging/ending concurrently, scheduled
